@@ -410,4 +410,45 @@ theorem idx_set_bi (x : UInt16) (v : Bool) : flagBlockSizeIndex (setBlockIndepen
     rw [Nat.or_zero] at this
     rw [this]
 
+/-! The version is read back as it was stored (`VersionSet(1)` in `FrameDescriptor.initW`, `Version()` in `initR`). -/
+
+/-- `DescriptorFlags.Version` as arithmetic -/
+theorem version_arith (y : UInt16) : (flagVersion y).toNat = y.toNat / 64 % 4 := by
+  unfold flagVersion
+  rw [UInt16.toNat_and, UInt16.toNat_shiftRight]
+  have h6 : (6 : UInt16).toNat % 16 = 6 := by decide
+  have h3 : (3 : UInt16).toNat = 2^2 - 1 := by decide
+  rw [h6, h3, Nat.and_two_pow_sub_one_eq_mod, Nat.shiftRight_eq_div_pow]
+
+/-- reading back the version `VersionSet` stored: the low two bits of the argument -/
+theorem get_set_version (x v : UInt16) : (flagVersion (setVersion x v)).toNat = v.toNat % 4 := by
+  rw [version_arith]
+  unfold setVersion
+  rw [UInt16.toNat_or, UInt16.toNat_and, n192, UInt16.toNat_shiftLeft, UInt16.toNat_and]
+  have h6 : (6 : UInt16).toNat % 16 = 6 := by decide
+  have h3 : (3 : UInt16).toNat = 2^2 - 1 := by decide
+  rw [h6, h3, Nat.and_two_pow_sub_one_eq_mod]
+  have hv : v.toNat % 2^2 < 4 := Nat.mod_lt _ (by decide)
+  have hsh : (v.toNat % 2^2) <<< 6 % 65536 = (v.toNat % 2^2) * 2^6 := by
+    rw [Nat.shiftLeft_eq]; omega
+  show ((x.toNat &&& 65343) ||| (v.toNat % 2^2) <<< 6 % 2^16) / 64 % 4 = v.toNat % 4
+  have e16 : (2:Nat)^16 = 65536 := by decide
+  rw [e16, hsh]
+  have e64 : (64 : Nat) = 2^6 := by decide
+  rw [e64, ← Nat.shiftRight_eq_div_pow, Nat.shiftRight_or_distrib, Nat.shiftRight_and_distrib]
+  have c : (65343 : Nat) >>> 6 = 1020 := by decide
+  rw [c, Nat.shiftRight_eq_div_pow ((v.toNat % 2^2) * 2^6), Nat.mul_div_cancel _ (by decide : 0 < 2^6)]
+  have e4 : (4 : Nat) = 2^2 := by decide
+  rw [e4]
+  apply Nat.eq_of_testBit_eq; intro i
+  rw [Nat.testBit_mod_two_pow, Nat.testBit_or, Nat.testBit_and]
+  by_cases hi : i < 2
+  · have h1020 : Nat.testBit 1020 i = false := by
+      have : i = 0 ∨ i = 1 := by omega
+      rcases this with rfl | rfl <;> decide
+    simp [hi, h1020]
+  · have hp : (2:Nat)^2 ≤ 2^i := Nat.pow_le_pow_right (by decide) (by omega)
+    have hb : (v.toNat % 2^2).testBit i = false := Nat.testBit_lt_two_pow (by omega)
+    simp [hi, hb]
+
 end Lz4V.Props.Leaf
